@@ -463,8 +463,8 @@ Theorem others_unaffected oc oc' ds p : oc p = oc' p ->
   (In p (start_plugins oc ds) <-> In p (start_plugins oc' ds)).
 Proof. intros H. rewrite !failures_skipped, H. tauto. Qed.
 
-Lemma active_cases o : active o = true <-> o = OGood \/ o = ODieLater.
-Proof. destruct o; cbn; split; intros H; try discriminate; try tauto; destruct H; discriminate. Qed.
+Lemma active_cases o : active o = true <-> o = OGood \/ o = ODieLater \/ o = OHangLater.
+Proof. destruct o; cbn; split; intros H; try discriminate; try tauto; destruct H as [H|[H|H]]; discriminate. Qed.
 
 (* ------------------------------------------------------------------ invocation order *)
 
@@ -526,9 +526,152 @@ Proof. destruct o; cbn; intros; try discriminate; reflexivity. Qed.
 Theorem kept_is_running o : active o = true -> state_after_start o = Some PRunning.
 Proof. destruct o; cbn; intros; try discriminate; reflexivity. Qed.
 
-(* … and nothing is left running after Stop *)
-Theorem stopped_is_killed o : launches o = true -> state_after_stop o = Some PGone.
-Proof. destruct o; cbn; intros; try discriminate; reflexivity. Qed.
+(* ------------------------------------------------------------------ the plugin table over time: drop and stop *)
+
+(* every launched process is gone: not running, not a zombie *)
+Definition all_gone (w : list rplugin) : Prop := Forall (fun p => rp_proc p = PGone) w.
+(* the invariant of the runtime: a launched plugin that is not (or no longer) in r.plugins has been killed and
+   waited for *)
+Definition dropped_gone (w : list rplugin) : Prop := Forall (fun p => rp_listed p = false -> rp_proc p = PGone) w.
+
+Lemma step_keeps_plugins w a : map rp_d (step w a) = map rp_d w.
+Proof.
+  destruct a as [n ex|n| |]; cbn [step]; unfold stop_plugins; rewrite map_map; apply map_ext; intros p.
+  - unfold conn_lost. destruct (String.eqb (rp_name p) n); reflexivity.
+  - unfold notice. destruct (String.eqb (rp_name p) n && negb (rp_conn p))%bool; reflexivity.
+  - unfold event_step. destruct (rp_listed p); [|reflexivity].
+    destruct (negb (rp_closed p) && negb (rp_conn p))%bool; cbn; [reflexivity|].
+    destruct (rp_closed p); reflexivity.
+  - unfold stop_step. destruct (rp_listed p); reflexivity.
+Qed.
+
+Lemma run_keeps_plugins h : forall w, map rp_d (run h w) = map rp_d w.
+Proof.
+  induction h as [|a h IH]; intros w; [reflexivity|].
+  unfold run in *. cbn [fold_left]. rewrite IH. apply step_keeps_plugins.
+Qed.
+
+Lemma run_app h1 h2 w : run (h1 ++ h2)%list w = run h2 (run h1 w).
+Proof. unfold run. apply fold_left_app. Qed.
+
+(* C18_killed_on_stop.  stopPlugins on ANY plugin table — whatever the closed flags, the state of the connections
+   and of the processes (running, already exited): when every process outside r.plugins was gone before, every
+   launched process is gone afterwards, r.plugins is empty, and no plugin was lost from the books *)
+Theorem stop_kills_all w : dropped_gone w ->
+  all_gone (stop_plugins w) /\ r_plugins (stop_plugins w) = [] /\ map rp_d (stop_plugins w) = map rp_d w.
+Proof.
+  intros Hd. split; [|split].
+  - unfold all_gone, stop_plugins. apply Forall_forall. intros q Hq. apply in_map_iff in Hq.
+    destruct Hq as [p [<- Hp]]. unfold dropped_gone in Hd. rewrite Forall_forall in Hd. specialize (Hd p Hp).
+    unfold stop_step. destruct (rp_listed p); [reflexivity|]. apply Hd. reflexivity.
+  - unfold r_plugins, stop_plugins. induction w as [|p r IH]; [reflexivity|].
+    cbn [map filter]. inversion Hd; subst.
+    assert (E : rp_listed (stop_step p) = false).
+    { unfold stop_step. destruct (rp_listed p) eqn:L; [reflexivity|exact L]. }
+    rewrite E. apply IH. assumption.
+  - exact (step_keeps_plugins w AStop).
+Qed.
+
+(* the special case the statement names: the list is r.plugins itself, with arbitrary flags and process states *)
+Theorem stop_kills_listed ps : Forall (fun p => rp_listed p = true) ps -> all_gone (stop_plugins ps).
+Proof.
+  intros Hl. apply stop_kills_all. unfold dropped_gone. eapply Forall_impl; [|exact Hl].
+  intros p L F. rewrite L in F. discriminate.
+Qed.
+
+Lemma world_after_start_dropped_gone oc ds : dropped_gone (world_after_start oc ds).
+Proof.
+  unfold dropped_gone, world_after_start. apply Forall_forall. intros q Hq. apply in_map_iff in Hq.
+  destruct Hq as [p [<- Hp]]. apply filter_In in Hp. destruct Hp as [_ Hl]. cbn.
+  destruct (oc p); cbn in *; intros; try discriminate; reflexivity.
+Qed.
+
+(* no action of the plugin or of the runtime breaks the invariant *)
+Lemma step_dropped_gone w a : dropped_gone w -> dropped_gone (step w a).
+Proof.
+  unfold dropped_gone. intros Hd. rewrite Forall_forall in Hd. apply Forall_forall. intros q Hq.
+  destruct a as [n ex|n| |]; cbn [step] in Hq; unfold stop_plugins in Hq; apply in_map_iff in Hq;
+    destruct Hq as [p [<- Hp]]; specialize (Hd p Hp).
+  - unfold conn_lost. destruct (String.eqb (rp_name p) n); [|exact Hd]. cbn. intros L. rewrite (Hd L). reflexivity.
+  - unfold notice. destruct (String.eqb (rp_name p) n && negb (rp_conn p))%bool; exact Hd.
+  - unfold event_step. destruct (rp_listed p) eqn:L; [|rewrite L; exact Hd].
+    destruct (negb (rp_closed p) && negb (rp_conn p))%bool; cbn; [reflexivity|].
+    destruct (rp_closed p); cbn; [reflexivity|]. rewrite L. discriminate.
+  - unfold stop_step. destruct (rp_listed p) eqn:L; cbn; [reflexivity|]. rewrite L. exact Hd.
+Qed.
+
+Lemma run_dropped_gone h : forall w, dropped_gone w -> dropped_gone (run h w).
+Proof.
+  induction h as [|a h IH]; intros w Hd; [exact Hd|].
+  unfold run in *. cbn [fold_left]. apply IH. apply step_dropped_gone. exact Hd.
+Qed.
+
+Lemma step_all_gone w a : all_gone w -> all_gone (step w a).
+Proof.
+  unfold all_gone. intros Hg. rewrite Forall_forall in Hg. apply Forall_forall. intros q Hq.
+  destruct a as [n ex|n| |]; cbn [step] in Hq; unfold stop_plugins in Hq; apply in_map_iff in Hq;
+    destruct Hq as [p [<- Hp]]; specialize (Hg p Hp).
+  - unfold conn_lost. destruct (String.eqb (rp_name p) n); [|exact Hg]. cbn. rewrite Hg. reflexivity.
+  - unfold notice. destruct (String.eqb (rp_name p) n && negb (rp_conn p))%bool; exact Hg.
+  - unfold event_step. destruct (rp_listed p); [|exact Hg].
+    destruct (negb (rp_closed p) && negb (rp_conn p))%bool; cbn; [reflexivity|].
+    destruct (rp_closed p); cbn; [reflexivity|exact Hg].
+  - unfold stop_step. destruct (rp_listed p); [reflexivity|exact Hg].
+Qed.
+
+Lemma run_all_gone h : forall w, all_gone w -> all_gone (run h w).
+Proof.
+  induction h as [|a h IH]; intros w Hg; [exact Hg|].
+  unfold run in *. cbn [fold_left]. apply IH. apply step_all_gone. exact Hg.
+Qed.
+
+(* C18_killed_on_stop_any_history.  Whatever the plugins did and whatever the runtime noticed or processed
+   before Stop (any list of actions h: connections lost by exit or by closing, close handlers run or not yet run,
+   events in between or none), and whatever comes after it (h'): once Stop has run, every process ever launched
+   from the directory is gone, and they are all still accounted for *)
+Theorem stop_kills_any_history oc ds h h' :
+  let w := run (h ++ AStop :: h')%list (world_after_start oc ds) in
+  all_gone w /\ map rp_d w = filter (fun p => launches (oc p)) ds.
+Proof.
+  cbv zeta. split.
+  - rewrite run_app. change (AStop :: h') with ([AStop] ++ h')%list. rewrite run_app. apply run_all_gone.
+    change (run [AStop] ?x) with (stop_plugins x).
+    apply stop_kills_all. apply run_dropped_gone. apply world_after_start_dropped_gone.
+  - rewrite run_keeps_plugins. unfold world_after_start. rewrite map_map. cbn. apply map_id.
+Qed.
+
+(* C18_killed_when_dropped_later.  One event or request on any plugin table satisfying the invariant: every plugin
+   whose connection is lost or that is marked closed is out of r.plugins and its process is gone; a healthy plugin
+   is left exactly as it was *)
+Theorem event_drops_and_kills w : dropped_gone w ->
+  Forall (fun q => rp_conn q = false \/ rp_closed q = true -> rp_listed q = false /\ rp_proc q = PGone) (step w AEvent) /\
+  (forall p, In p w -> rp_listed p = true -> rp_conn p = true -> rp_closed p = false -> event_step p = p).
+Proof.
+  intros Hd. split.
+  - unfold dropped_gone in Hd. rewrite Forall_forall in Hd. apply Forall_forall. intros q Hq.
+    cbn [step] in Hq. apply in_map_iff in Hq. destruct Hq as [p [<- Hp]]. specialize (Hd p Hp).
+    unfold event_step. destruct (rp_listed p) eqn:L.
+    + destruct (rp_closed p) eqn:C; destruct (rp_conn p) eqn:K; cbn; rewrite ?C, ?K, ?L; cbn; intros H; try (split; reflexivity).
+      destruct H; discriminate.
+    + intros _. rewrite L. split; [reflexivity|]. apply Hd. reflexivity.
+  - intros p _ L K C. unfold event_step. rewrite L, C, K. cbn. rewrite C. reflexivity.
+Qed.
+
+(* The variant of stopPlugins that passes over plugins already marked closed (and closes the others first) is NOT
+   a model of the statement: the theorem above fails for it, see the witnesses in Properties/C18.v *)
+Definition stop_step_skipping_closed (p : rplugin) : rplugin :=
+  if rp_listed p
+  then if rp_closed p then unlist p else unlist (plugin_stop (plugin_close p))
+  else p.
+Definition stop_plugins_skipping_closed (w : list rplugin) : list rplugin := map stop_step_skipping_closed w.
+
+Theorem skipping_closed_refuted : exists ps,
+  Forall (fun p => rp_listed p = true) ps /\ ~ all_gone (stop_plugins_skipping_closed ps).
+Proof.
+  exists [ {| rp_d := {| d_idx := "10"; d_base := "a"; d_cfg := "" |}; rp_listed := true; rp_conn := false;
+              rp_closed := true; rp_proc := PRunning |} ].
+  split; [repeat constructor|]. intros H. inversion H as [|x l Hx _]; subst. cbn in Hx. discriminate.
+Qed.
 
 (* ------------------------------------------------------------------ the code's helpers compute the statement's reading *)
 
